@@ -419,3 +419,575 @@ Proof. repeat split; vm_compute; reflexivity. Qed.
 Lemma nonblank_id_ok :
   visit (IId (SStr (b "urn:x")) :: ok_tail) = (PInv, [(E010, 0)]).
 Proof. vm_compute. reflexivity. Qed.
+
+(* ------------------------------------------------------------------ *)
+(** * 3. Cross-inventory checks *)
+
+Lemma lookup_in {A} k (l : list (N * A)) a : lookup k l = Some a -> In (k, a) l.
+Proof.
+  unfold lookup. destruct (find (fun e => fst e =? k) l) as [e|] eqn:F; [|discriminate].
+  intros H. inversion H; subst. apply find_some in F as [Hin Heq].
+  destruct e as [k' a']. cbn [fst snd] in *. assert (k' = k) by lia. now subst.
+Qed.
+
+Lemma lookup_app {A} k (l : list (N * A)) k2 a2 c :
+  lookup k (l ++ [(k2, a2)]) = Some c -> lookup k l = Some c \/ c = a2.
+Proof.
+  unfold lookup. induction l as [|[k1 a1] r IH]; cbn [app find fst snd].
+  - destruct (k2 =? k); [|discriminate]. intros H; inversion H; auto.
+  - destruct (k1 =? k); [auto|]. exact IH.
+Qed.
+
+Lemma content_paths_nonempty inv d ps : content_paths inv d = Some ps -> ps <> [].
+Proof.
+  unfold content_paths. destruct (lookup d (i_manifest inv)) as [l|]; [|discriminate].
+  destruct l; cbn [is_nil]; [discriminate|]. intros H; inversion H; discriminate.
+Qed.
+
+Lemma nlen_zero {A} (l : list A) : (nlen l =? 0) = is_nil l.
+Proof. destruct l; unfold nlen; cbn [List.length is_nil]; lia. Qed.
+
+(** ** get_version(..).unwrap() *)
+
+Definition contiguous (inv : ainv) : Prop :=
+  forall k, 1 <= k -> k <= i_head inv -> get_version inv k <> None.
+
+Lemma entry_check_no_gv dbg cur cmp inv st cd e :
+  entry_check dbg cur cmp inv st cd e <> XPanic SGetVersion.
+Proof.
+  unfold entry_check. destruct e as [p d0].
+  repeat match goal with
+         | |- context [match ?x with _ => _ end] => destruct x
+         end; discriminate.
+Qed.
+
+Lemma entries_check_lift dbg cur cmp inv st cd s : forall l acc,
+  (forall e, In e l -> entry_check dbg cur cmp inv st cd e <> XPanic s) ->
+  entries_check dbg cur cmp inv st cd l acc <> XPanic s.
+Proof.
+  induction l as [|e r IH]; intros acc H; cbn [entries_check]; [discriminate|].
+  assert (He := H e (or_introl eq_refl)).
+  destruct (entry_check dbg cur cmp inv st cd e) as [n|s'|]; [|exact He|discriminate].
+  apply IH. intros e' Hin. apply H. now right.
+Qed.
+
+Lemma state_consistent_lift dbg cur cmp inv cd s :
+  (s = SGetVersion -> get_version cmp cur <> None /\ get_version inv cur <> None) ->
+  (forall cst st e, get_version cmp cur = Some cst -> get_version inv cur = Some st -> In e cst ->
+     entry_check dbg cur cmp inv st cd e <> XPanic s) ->
+  state_consistent dbg cur cmp inv cd <> XPanic s.
+Proof.
+  intros Hgv H. unfold state_consistent.
+  destruct (get_version cmp cur) as [cst|] eqn:E1.
+  2:{ intros Heq. inversion Heq; subst. destruct (Hgv eq_refl) as [A _]. now apply A. }
+  destruct (get_version inv cur) as [st|] eqn:E2.
+  2:{ intros Heq. inversion Heq; subst. destruct (Hgv eq_refl) as [_ A]. now apply A. }
+  assert (L := entries_check_lift dbg cur cmp inv st cd s cst 0 (fun e Hin => H cst st e eq_refl eq_refl Hin)).
+  destruct (entries_check dbg cur cmp inv st cd cst 0); [discriminate|exact L|discriminate].
+Qed.
+
+Lemma version_consistent_no_gv dbg root other cmp : forall fuel cur acc,
+  contiguous root -> contiguous other ->
+  (forall c, cmp = Some c -> contiguous c /\ cur <= i_head c) ->
+  1 <= cur -> cur <= i_head root -> cur <= i_head other ->
+  version_consistent dbg fuel cur root other cmp acc <> XPanic SGetVersion.
+Proof.
+  induction fuel as [|f IH]; intros cur acc Hr Ho Hc H1 H2 H3; cbn [version_consistent].
+  all: destruct (get_version root cur) eqn:E1; [|exfalso; now apply (Hr cur)].
+  all: destruct (get_version other cur) eqn:E2; [|exfalso; now apply (Ho cur)].
+  all: assert (S : (match cmp with
+                    | Some c => state_consistent dbg cur c other true
+                    | None => state_consistent dbg cur root other false
+                    end) <> XPanic SGetVersion).
+  1,3: destruct cmp as [c|].
+  1,3: destruct (Hc c eq_refl) as [Hcc Hle];
+       apply state_consistent_lift;
+       [intros _; split; [now apply Hcc | congruence] | intros; apply entry_check_no_gv].
+  1,2: apply state_consistent_lift;
+       [intros _; split; congruence | intros; apply entry_check_no_gv].
+  all: destruct (match cmp with
+                 | Some c => state_consistent dbg cur c other true
+                 | None => state_consistent dbg cur root other false
+                 end) as [n|s|]; [|exact S|discriminate].
+  all: destruct (cur =? 1) eqn:E; [discriminate|].
+  - discriminate.
+  - apply IH; try assumption; try lia.
+    intros c Hcs. destruct (Hc c Hcs). split; [assumption|lia].
+Qed.
+
+Fixpoint desc_from (bound : N) (dirs : list (N * ainv)) : Prop :=
+  match dirs with
+  | [] => True
+  | d :: r => fst d <= bound /\ desc_from (fst d) r
+  end.
+
+Definition dir_ok (root : ainv) (d : N * ainv) : Prop :=
+  contiguous (snd d) /\ 1 <= fst d /\ fst d <= i_head (snd d) /\ fst d <= i_head root.
+
+Lemma cross_loop_no_gv dbg root : forall dirs seen acc bound,
+  contiguous root -> Forall (dir_ok root) dirs -> desc_from bound dirs ->
+  (forall a c, lookup a seen = Some c -> contiguous c /\ bound <= i_head c) ->
+  cross_loop dbg root dirs seen acc <> XPanic SGetVersion.
+Proof.
+  induction dirs as [|[num inv] rest IH]; intros seen acc bound Hr Hd Hdesc Hseen; cbn [cross_loop];
+    [discriminate|].
+  inversion Hd as [|? ? (Hc & H1 & H2 & H3) Hrest]; subst. cbn [fst snd] in *.
+  cbn [desc_from fst] in Hdesc. destruct Hdesc as [Hb Hdesc].
+  set (cmp := if i_alg root =? i_alg inv then Some root else lookup (i_alg inv) seen).
+  assert (V : version_consistent dbg (List.length (i_versions inv)) num root inv cmp 0 <> XPanic SGetVersion).
+  { apply version_consistent_no_gv; try assumption.
+    intros c Hcs. unfold cmp in Hcs. destruct (i_alg root =? i_alg inv).
+    - inversion Hcs; subst. split; assumption.
+    - destruct (Hseen _ _ Hcs). split; [assumption|lia]. }
+  destruct (version_consistent dbg (List.length (i_versions inv)) num root inv cmp 0) as [n|s|];
+    [|exact V|discriminate].
+  apply (IH _ _ num); try assumption.
+  intros a c Hl. destruct (lookup (i_alg inv) seen) eqn:El.
+  - destruct (Hseen _ _ Hl). split; [assumption|lia].
+  - apply lookup_app in Hl as [Hl | -> ].
+    + destruct (Hseen _ _ Hl). split; [assumption|lia].
+    + split; assumption.
+Qed.
+
+Lemma cross_check_get_version_guarded dbg root dirs :
+  contiguous root -> Forall (dir_ok root) dirs -> desc_from (i_head root) dirs ->
+  cross_check dbg root dirs <> XPanic SGetVersion.
+Proof.
+  intros. unfold cross_check. eapply cross_loop_no_gv; eauto.
+  intros a c Hl. discriminate.
+Qed.
+
+(** ** lifting a per-entry fact about one panic site to the whole loop *)
+Section Lift.
+  Variable dbg : bool.
+  Variable s : psite.
+  Variable P : ainv -> Prop.
+  Hypothesis s_not_gv : s <> SGetVersion.
+  Hypothesis Hentry : forall cur cmp inv cst st cd e,
+    P cmp -> P inv -> get_version cmp cur = Some cst -> get_version inv cur = Some st -> In e cst ->
+    entry_check dbg cur cmp inv st cd e <> XPanic s.
+
+  Lemma version_consistent_lift root other cmp : forall fuel cur acc,
+    P root -> P other -> (forall c, cmp = Some c -> P c) ->
+    version_consistent dbg fuel cur root other cmp acc <> XPanic s.
+  Proof.
+    induction fuel as [|f IH]; intros cur acc Hr Ho Hc; cbn [version_consistent].
+    all: destruct (get_version root cur); [|congruence].
+    all: destruct (get_version other cur); [|congruence].
+    all: assert (S : (match cmp with
+                      | Some c => state_consistent dbg cur c other true
+                      | None => state_consistent dbg cur root other false
+                      end) <> XPanic s).
+    1,3: destruct cmp as [c|]; apply state_consistent_lift; try (intros; congruence);
+         intros; eapply Hentry; eauto.
+    all: destruct (match cmp with
+                   | Some c => state_consistent dbg cur c other true
+                   | None => state_consistent dbg cur root other false
+                   end) as [n|s'|]; [|exact S|discriminate].
+    all: destruct (cur =? 1); try discriminate.
+    now apply IH.
+  Qed.
+
+  Lemma cross_loop_lift root : forall dirs seen acc,
+    P root -> Forall (fun d => P (snd d)) dirs -> (forall a c, lookup a seen = Some c -> P c) ->
+    cross_loop dbg root dirs seen acc <> XPanic s.
+  Proof.
+    induction dirs as [|[num inv] rest IH]; intros seen acc Hr Hd Hseen; cbn [cross_loop]; [discriminate|].
+    inversion Hd as [|? ? Hi Hrest]; subst. cbn [snd] in Hi.
+    set (cmp := if i_alg root =? i_alg inv then Some root else lookup (i_alg inv) seen).
+    assert (V : version_consistent dbg (List.length (i_versions inv)) num root inv cmp 0 <> XPanic s).
+    { apply version_consistent_lift; try assumption.
+      intros c Hcs. unfold cmp in Hcs. destruct (i_alg root =? i_alg inv).
+      - now inversion Hcs; subst.
+      - eapply Hseen; eauto. }
+    destruct (version_consistent dbg (List.length (i_versions inv)) num root inv cmp 0) as [n|s'|];
+      [|exact V|discriminate].
+    apply IH; try assumption.
+    intros a c Hl. destruct (lookup (i_alg inv) seen) eqn:El; [eapply Hseen; eauto|].
+    apply lookup_app in Hl as [Hl | -> ]; [eapply Hseen; eauto|assumption].
+  Qed.
+
+  Lemma cross_check_lift root dirs :
+    P root -> Forall (fun d => P (snd d)) dirs -> cross_check dbg root dirs <> XPanic s.
+  Proof. intros. apply cross_loop_lift; auto. intros a c Hl. discriminate. Qed.
+End Lift.
+
+(** ** content_paths(..).unwrap() *)
+
+(** what the E050 check (serde.rs:443-456) gives for an inventory that parsed without error:
+    every digest used by a state is a key of the manifest object *)
+Definition closed (inv : ainv) : Prop :=
+  forall v st p d, In (v, st) (i_versions inv) -> In (p, d) st -> lookup d (i_manifest inv) <> None.
+
+Definition good (inv : ainv) : Prop := closed inv /\ c17_empty_manifest_entry inv = false.
+
+Lemma existsb_false_in {A} (f : A -> bool) l x : existsb f l = false -> In x l -> f x = false.
+Proof.
+  intros H Hin. destruct (f x) eqn:E; [|reflexivity].
+  assert (existsb f l = true) by (apply existsb_exists; eauto). congruence.
+Qed.
+
+Lemma good_content_paths inv v st p d :
+  good inv -> In (v, st) (i_versions inv) -> In (p, d) st -> content_paths inv d <> None.
+Proof.
+  intros [Hc Hk] Hv Hp. unfold content_paths.
+  destruct (lookup d (i_manifest inv)) as [ps|] eqn:L; [|exfalso; eapply Hc; eauto].
+  apply lookup_in in L. unfold c17_empty_manifest_entry in Hk.
+  assert (E := existsb_false_in _ _ _ Hk L). cbn [snd] in E. rewrite E. discriminate.
+Qed.
+
+Lemma entry_check_content_paths dbg cur cmp inv cst st cd e :
+  good cmp -> good inv -> get_version cmp cur = Some cst -> get_version inv cur = Some st -> In e cst ->
+  entry_check dbg cur cmp inv st cd e <> XPanic SContentPaths.
+Proof.
+  intros Gc Gi E1 E2 Hin. unfold entry_check. destruct e as [p d0].
+  destruct (lookup p st) as [d|] eqn:L; [|discriminate].
+  destruct cd; [discriminate|].
+  assert (A : content_paths cmp d0 <> None).
+  { eapply good_content_paths; eauto. unfold get_version in E1. eapply lookup_in; eauto. }
+  assert (B : content_paths inv d <> None).
+  { eapply good_content_paths; eauto.
+    - unfold get_version in E2. eapply lookup_in; eauto.
+    - eapply lookup_in; eauto. }
+  destruct (content_paths cmp d0) as [cps|]; [|congruence].
+  destruct (content_paths inv d) as [ps|]; [|congruence].
+  repeat match goal with
+         | |- context [if ?x then _ else _] => destruct x
+         end; discriminate.
+Qed.
+
+Lemma cross_check_content_paths_guarded dbg root dirs :
+  good root -> Forall (fun d => good (snd d)) dirs -> cross_check dbg root dirs <> XPanic SContentPaths.
+Proof.
+  apply cross_check_lift; [discriminate|].
+  intros; eapply entry_check_content_paths; eauto.
+Qed.
+
+(** the unguarded case: a manifest entry with an empty array, used by a state, and a
+    version inventory written with another digest algorithm *)
+Definition w_root : ainv :=
+  mkI 512 2 [(1, [(1, 10); (2, 11)]); (2, [(1, 10); (2, 11)])] [(10, [(1, 1)]); (11, [])].
+Definition w_v1 : ainv :=
+  mkI 256 1 [(1, [(1, 20); (2, 21)])] [(20, [(1, 1)]); (21, [])].
+
+Lemma empty_manifest_entry_panics :
+  cross_check false w_root [(1, w_v1)] = XPanic SContentPaths /\
+  closed w_root /\ c17_empty_manifest_entry w_root = true /\ contiguous w_root /\ dir_ok w_root (1, w_v1).
+Proof.
+  split; [vm_compute; reflexivity|]. split.
+  { intros v st p d Hv Hp. cbn in Hv.
+    destruct Hv as [Hv|[Hv|[]]]; inversion Hv; subst; cbn in Hp;
+      destruct Hp as [Hp|[Hp|[]]]; inversion Hp; subst; vm_compute; discriminate. }
+  split; [vm_compute; reflexivity|].
+  split.
+  - intros k H1 H2. change (i_head w_root) with 2 in H2.
+    assert (k = 1 \/ k = 2) as [ -> | -> ] by lia; vm_compute; discriminate.
+  - unfold dir_ok. cbn [fst snd w_v1 w_root i_head]. repeat split; try lia.
+    intros k H1 H2. change (i_head w_v1) with 1 in H2. assert (k = 1) as -> by lia. vm_compute; discriminate.
+Qed.
+
+(** ** PrettyPrintSet *)
+
+Lemma pps_release len : pps_panics false len = false.
+Proof. reflexivity. Qed.
+
+Lemma pps_total dbg len : dbg = false \/ len <> 0 -> pps_panics dbg len = false.
+Proof. unfold pps_panics. intros [->|H]; [reflexivity|]. destruct dbg; cbn [andb]; lia. Qed.
+
+Lemma entry_check_pps_release cur cmp inv st cd e :
+  entry_check false cur cmp inv st cd e <> XPanic SPrettyPrint.
+Proof.
+  unfold entry_check, pps_panics. destruct e as [p d0]. cbn [andb orb].
+  repeat match goal with
+         | |- context [match ?x with _ => _ end] => destruct x
+         end; discriminate.
+Qed.
+
+Lemma cross_check_pps_release root dirs : cross_check false root dirs <> XPanic SPrettyPrint.
+Proof.
+  apply (cross_check_lift false SPrettyPrint (fun _ => True)).
+  - discriminate.
+  - intros; apply entry_check_pps_release.
+  - exact I.
+  - apply Forall_forall; intros; exact I.
+Qed.
+
+Lemma forallb_false_ex {A} (f : A -> bool) l : forallb f l = false -> exists x, In x l /\ f x = false.
+Proof.
+  induction l as [|a r IH]; cbn [forallb]; [discriminate|].
+  destruct (f a) eqn:E; cbn [andb].
+  - intros H. destruct (IH H) as [x [Hin Hx]]. exists x. split; [now right|assumption].
+  - intros _. exists a. split; [now left|assumption].
+Qed.
+
+Lemma filter_nonempty {A} (f : A -> bool) l x : In x l -> f x = true -> filter f l <> [].
+Proof.
+  intros Hin Hx Hnil. assert (In x (filter f l)) by (apply filter_In; auto). rewrite Hnil in H. destruct H.
+Qed.
+
+(** debug builds: only the filtered set can be empty, and only for inventories in the class *)
+Lemma entry_check_pps_debug dbg cur cmp inv cst st cd e :
+  c17_future_content cmp = false ->
+  get_version cmp cur = Some cst -> In e cst ->
+  entry_check dbg cur cmp inv st cd e <> XPanic SPrettyPrint.
+Proof.
+  intros Hk E1 Hin. unfold entry_check. destruct e as [p d0].
+  destruct (lookup p st) as [d|]; [|discriminate].
+  destruct cd; [discriminate|].
+  destruct (content_paths cmp d0) as [cps|] eqn:C1; [|destruct (content_paths inv d); discriminate].
+  destruct (content_paths inv d) as [ps|] eqn:C2; [|discriminate].
+  assert (N1 := content_paths_nonempty _ _ _ C1). assert (N2 := content_paths_nonempty _ _ _ C2).
+  assert (P1 : pps_panics dbg (nlen cps) = false).
+  { apply pps_total. right. destruct cps; [congruence|]. rewrite nlen_cons. lia. }
+  assert (P2 : pps_panics dbg (nlen ps) = false).
+  { apply pps_total. right. destruct ps; [congruence|]. rewrite nlen_cons. lia. }
+  rewrite P1, P2. cbn [orb].
+  destruct (nlen cps =? 1) eqn:L1.
+  - destruct (set_eqb cps ps); discriminate.
+  - destruct (set_eqb (filter (fun cp => fst cp <=? cur) cps) ps); [discriminate|].
+    assert (P3 : pps_panics dbg (nlen (filter (fun cp : N * N => fst cp <=? cur) cps)) = false).
+    { apply pps_total. right.
+      unfold c17_future_content in Hk. unfold get_version in E1. apply lookup_in in E1.
+      assert (X := existsb_false_in _ _ _ Hk E1). cbn beta in X. cbn [snd fst] in X.
+      assert (Y := existsb_false_in _ _ _ X Hin). cbn beta in Y. cbn [snd] in Y.
+      rewrite C1, L1 in Y. cbn [negb andb] in Y.
+      apply forallb_false_ex in Y as [cp [Hcp Hlt]].
+      assert (F : filter (fun cp0 : N * N => fst cp0 <=? cur) cps <> []).
+      { eapply filter_nonempty; [exact Hcp|]. cbn beta. lia. }
+      destruct (filter (fun cp0 : N * N => fst cp0 <=? cur) cps); [congruence|]. rewrite nlen_cons. lia. }
+    rewrite P3. discriminate.
+Qed.
+
+Lemma cross_check_pps_guarded dbg root dirs :
+  c17_future_content root = false -> Forall (fun d => c17_future_content (snd d) = false) dirs ->
+  cross_check dbg root dirs <> XPanic SPrettyPrint.
+Proof.
+  apply (cross_check_lift dbg SPrettyPrint (fun i => c17_future_content i = false)); [discriminate|].
+  intros; eapply entry_check_pps_debug; eauto.
+Qed.
+
+(** the empty set does reach PrettyPrintSet in a debug build *)
+Definition w2_root : ainv :=
+  mkI 512 2 [(1, [(1, 10)]); (2, [(1, 10)])] [(10, [(2, 1); (2, 2)])].
+Definition w2_v1 : ainv := mkI 256 1 [(1, [(1, 20)])] [(20, [(1, 1)])].
+
+Lemma empty_set_reaches_pretty_print :
+  cross_check true w2_root [(1, w2_v1)] = XPanic SPrettyPrint /\
+  cross_check false w2_root [(1, w2_v1)] = XOk 1 /\
+  c17_empty_pps true w2_root = true /\ c17_empty_manifest_entry w2_root = false.
+Proof. repeat split; vm_compute; reflexivity. Qed.
+
+Lemma cross_check_nonvacuous :
+  exists root v1, good root /\ good v1 /\ contiguous root /\ dir_ok root (1, v1) /\
+    c17_future_content root = false /\ cross_check true root [(1, v1)] = XOk 0.
+Proof.
+  exists (mkI 512 2 [(1, [(1, 10)]); (2, [(1, 10)])] [(10, [(1, 1)])]),
+         (mkI 256 1 [(1, [(1, 20)])] [(20, [(1, 1)])]).
+  assert (G : forall inv, (forall v st p d, In (v, st) (i_versions inv) -> In (p, d) st -> d = 10 \/ d = 20) ->
+              (lookup 10 (i_manifest inv) <> None \/ lookup 20 (i_manifest inv) <> None) -> True) by auto.
+  repeat split; try (vm_compute; reflexivity).
+  - intros v st p d Hv Hp. cbn in Hv. destruct Hv as [Hv|[Hv|[]]]; inversion Hv; subst; cbn in Hp;
+      destruct Hp as [Hp|[]]; inversion Hp; subst; vm_compute; discriminate.
+  - intros v st p d Hv Hp. cbn in Hv. destruct Hv as [Hv|[]]; inversion Hv; subst; cbn in Hp;
+      destruct Hp as [Hp|[]]; inversion Hp; subst; vm_compute; discriminate.
+  - intros k H1 H2. cbn [i_head] in H2. assert (k = 1 \/ k = 2) as [ -> | -> ] by lia; vm_compute; discriminate.
+  - intros k H1 H2. cbn [snd i_head] in H2. assert (k = 1) as -> by lia. vm_compute; discriminate.
+  - cbn. lia.
+  - cbn. lia.
+  - cbn. lia.
+Qed.
+
+(* ------------------------------------------------------------------ *)
+(** * 4. validate_non_conflicting: cost *)
+
+Lemma count_slash_cons c r :
+  count_slash (c :: r) = (if Ascii.eqb c "/"%char then 1 else 0) + count_slash r.
+Proof.
+  unfold count_slash. cbn [filter]. destruct (Ascii.eqb c "/"); [rewrite nlen_cons|]; lia.
+Qed.
+
+Lemma slash_prefix_cost_le : forall s pos,
+  slash_prefix_cost pos s <= count_slash s * (pos + nlen s).
+Proof.
+  induction s as [|c r IH]; intros pos; cbn [slash_prefix_cost].
+  - unfold count_slash. cbn. lia.
+  - rewrite count_slash_cons, nlen_cons. specialize (IH (pos + 1)).
+    destruct (Ascii.eqb c "/"); nia.
+Qed.
+
+Lemma nonconflict_cost_le path : nonconflict_cost path <= count_slash path * nlen path.
+Proof. unfold nonconflict_cost. apply (slash_prefix_cost_le path 0). Qed.
+
+Lemma nonconflict_cost_outside_class path :
+  c17_quadratic_path (count_slash path) (nlen path) = false -> nonconflict_cost path <= PATH_COST_BOUND.
+Proof.
+  unfold c17_quadratic_path. intros H. assert (L := nonconflict_cost_le path). lia.
+Qed.
+
+(** the cost is quadratic in the length: "a/a/.../a/" with n segments costs n^2 *)
+Lemma slash_prefix_cost_rep : forall n pos,
+  slash_prefix_cost pos (rep_seg n) = N.of_nat n * pos + N.of_nat n * N.of_nat n.
+Proof.
+  induction n as [|n IH]; intros pos; cbn [rep_seg slash_prefix_cost].
+  - change (N.of_nat 0) with 0. lia.
+  - rewrite IH. rewrite Nat2N.inj_succ.
+    replace (Ascii.eqb "a" "/") with false by reflexivity.
+    replace (Ascii.eqb "/" "/") with true by reflexivity. lia.
+Qed.
+
+Lemma nonconflict_cost_quadratic n :
+  nonconflict_cost (rep_seg n) = N.of_nat n * N.of_nat n /\ nlen (rep_seg n) = 2 * N.of_nat n.
+Proof.
+  split.
+  - unfold nonconflict_cost. rewrite slash_prefix_cost_rep. lia.
+  - induction n as [|n IH]; [reflexivity|]. cbn [rep_seg]. rewrite !nlen_cons, IH, Nat2N.inj_succ. lia.
+Qed.
+
+(* ------------------------------------------------------------------ *)
+(** * 5. ContentPathsIter *)
+
+Lemma vprev_ge2 dbg n w : 2 <= n -> vprev dbg (mkV n w) = Ok (mkV (n - 1) w).
+Proof.
+  intros H. unfold vprev, u32_pred. cbn [vn_number vn_width].
+  replace (n =? 0) with false by lia. cbn [res_bind]. replace (n - 1 <? 1) with false by lia. reflexivity.
+Qed.
+
+(** the walk ends (no panic, bounded by the version number) whatever the padding width;
+    it relies on [!=] comparing numbers only *)
+Lemma cpi_walk_terminates dbg has : forall fuel n w,
+  1 <= n -> n <= N.of_nat fuel + 1 ->
+  exists r, cpi_walk vnum_eq_rust dbg fuel (mkV n w) has = Ok r /\
+            match r with Some p => vn_number p < n /\ has (vn_number p) = true | None => True end.
+Proof.
+  induction fuel as [|f IH]; intros n w H1 H2.
+  - change (N.of_nat 0) with 0 in H2. assert (n = 1) by lia. subst.
+    exists None. split; [reflexivity|exact I].
+  - rewrite Nat2N.inj_succ in H2. cbn [cpi_walk]. unfold vnum_eq_rust at 1. cbn [vn_number vn_v1].
+    destruct (n =? 1) eqn:E.
+    + exists None. split; [reflexivity|exact I].
+    + rewrite vprev_ge2 by lia. cbn [unwrap vn_number].
+      destruct (has (n - 1)) eqn:Hh.
+      * exists (Some (mkV (n - 1) w)). split; [reflexivity|]. cbn [vn_number]. split; [lia|assumption].
+      * destruct (IH (n - 1) w ltac:(lia) ltac:(lia)) as [r [Hr Hm]]. exists r. split; [exact Hr|].
+        destruct r as [p|]; [|exact I]. destruct Hm. split; [lia|assumption].
+Qed.
+
+(** with a width-sensitive equality the same walk would panic at a padded v1 *)
+Lemma cpi_walk_strict_eq_panics :
+  cpi_walk vnum_eqb true 5 (mkV 2 3) (fun _ => false) = Panic /\
+  cpi_walk vnum_eq_rust true 5 (mkV 2 3) (fun _ => false) = Ok None.
+Proof. split; vm_compute; reflexivity. Qed.
+
+(* ------------------------------------------------------------------ *)
+(** * 6. IncrementalValidatorImpl::next *)
+
+Lemma objs_dir ch : objs (TDir ch) = objs_list ch.
+Proof.
+  cbn [objs]. unfold objs_list. induction ch as [|x r IH]; [reflexivity|].
+  cbn [flat_map]. now rewrite IH.
+Qed.
+
+Lemma tsize_dir ch : tsize (TDir ch) = S (S (lsize ch)).
+Proof.
+  cbn [tsize]. do 2 f_equal.
+  all: unfold lsize; induction ch as [|x r IH]; [reflexivity|]; cbn [fold_right]; now rewrite IH.
+Qed.
+
+Lemma lsize_cons t l : lsize (t :: l) = (tsize t + lsize l)%nat.
+Proof. reflexivity. Qed.
+
+Lemma ssize_cons l s : ssize (l :: s) = (S (lsize l) + ssize s)%nat.
+Proof. reflexivity. Qed.
+
+(** the iterator yields exactly one element per object root / unreadable directory, in
+    depth-first order - whatever the individual results are *)
+Lemma iter_run_spec : forall fuel cur stack,
+  (lsize cur + ssize stack < fuel)%nat ->
+  iter_run fuel cur stack = objs_list cur ++ flat_map objs_list stack.
+Proof.
+  induction fuel as [|f IH]; intros cur stack Hf; [lia|].
+  cbn [iter_run]. destruct cur as [|t rest].
+  - destruct stack as [|c st]; [reflexivity|].
+    rewrite ssize_cons in Hf. rewrite IH by (cbn [lsize fold_right] in *; lia). reflexivity.
+  - rewrite lsize_cons in Hf. destruct t as [ok|ch| |].
+    + cbn [tsize] in Hf. rewrite IH by lia. reflexivity.
+    + rewrite tsize_dir in Hf. rewrite IH by (rewrite ssize_cons; lia).
+      unfold objs_list at 3. cbn [flat_map]. rewrite objs_dir.
+      fold (objs_list rest). rewrite <- app_assoc. reflexivity.
+    + cbn [tsize] in Hf. rewrite IH by lia. reflexivity.
+    + cbn [tsize] in Hf. rewrite IH by lia. reflexivity.
+Qed.
+
+Lemma objs_list_app a c : objs_list (a ++ c) = objs_list a ++ objs_list c.
+Proof. unfold objs_list. apply flat_map_app. Qed.
+
+(** an Err for one object (or an unreadable directory) does not stop the iteration *)
+Lemma iterator_continues_after_err pre post item :
+  item = TObj false \/ item = TBadDir ->
+  exists it, (it = VResult false \/ it = VListErr) /\
+  iter_run (S (lsize (pre ++ item :: post))) (pre ++ item :: post) [] =
+    objs_list pre ++ it :: objs_list post.
+Proof.
+  intros H. rewrite iter_run_spec by (cbn [ssize fold_right]; lia).
+  cbn [flat_map]. rewrite app_nil_r, objs_list_app.
+  destruct H as [-> | ->].
+  - exists (VResult false). split; [now left|]. reflexivity.
+  - exists VListErr. split; [now right|]. reflexivity.
+Qed.
+
+Lemma iter_example :
+  iter_run 100 [TObj true; TDir [TObj false; TLeaf; TDir [TBadDir; TObj true]]; TObj true] [] =
+  [VResult true; VResult false; VListErr; VResult true; VResult true].
+Proof. vm_compute. reflexivity. Qed.
+
+(* ------------------------------------------------------------------ *)
+(** * 7. Display with a dynamic width *)
+
+Lemma vparse_width s v : vparse s = Ok v -> vn_width v + 1 <= blen s.
+Proof.
+  unfold vparse. destruct s as [|c ds]; [discriminate|].
+  destruct (negb (Ascii.eqb c "v")); [discriminate|].
+  destruct ds as [|d0 r]; [discriminate|].
+  destruct (negb (forallb is_digit (d0 :: r))); [discriminate|].
+  destruct (dec_value (d0 :: r)) as [n|]; [|discriminate].
+  destruct (U32MAX <? n); [discriminate|]. destruct (n <? 1); [discriminate|].
+  intros H. inversion H; subst. cbn [vn_width]. unfold blen.
+  destruct (Ascii.eqb d0 "0"); cbn [List.length]; lia.
+Qed.
+
+Lemma vdisplay_total_short s v :
+  vparse s = Ok v -> blen s <= FMT_WIDTH_MAX + 1 -> vdisplay_panics v = false.
+Proof.
+  intros H L. apply vparse_width in H. unfold vdisplay_panics, FMT_WIDTH_MAX in *. lia.
+Qed.
+
+Lemma wide_padding_witness :
+  exists v, c17_wide_padding v = true /\ vwf v = true /\ vn_number v = 1.
+Proof. exists (mkV 1 65536). repeat split; vm_compute; reflexivity. Qed.
+
+(* ------------------------------------------------------------------ *)
+(** * corollaries in the form the property file states them *)
+
+Lemma vnums_cost_zero_contiguous vs : incr_from 1 vs -> vnums_cost vs = 0 ->
+  vs = iota 1 (List.length vs).
+Proof. intros Hs H. exact (vnums_zero_contiguous vs 1 0 Hs H). Qed.
+
+Lemma visit_args items st : run p0 items = inl st -> has_errors (snd (finish st)) = false ->
+  exists id a h nums,
+    p_id st = Some id /\ p_type st = true /\ p_alg st = Some a /\ alg_allowed a = true /\
+    p_head st = Some h /\ p_manifest st = true /\ p_versions st = Some (nums, nums) /\
+    vset_mem h nums = true /\
+    (forall d, p_cdir st = Some d -> cdir_kind d = None) /\
+    inventory_new id a h (p_cdir st) nums = (if is_nil id then Err else Ok tt).
+Proof. intros R. apply finish_args. exact (run_inv _ _ _ pinv_p0 R). Qed.
+
+Lemma vnums_example :
+  incr_from 1 [1; 2; 3; 5; 9] /\ c17_version_gap [1; 2; 3; 5; 9] = false /\
+  vnums_cost [1; 2; 3; 5; 9] = 4 /\
+  validate_version_nums true 10 [mkV 1 0; mkV 2 0; mkV 3 0; mkV 5 0; mkV 9 0] = Ok 4 /\
+  vnums_padding [mkV 1 0; mkV 2 2] = (true, false).
+Proof. repeat split; try (vm_compute; reflexivity); cbn [incr_from]; lia. Qed.
+
+Lemma cpi_example :
+  cpi_walk vnum_eq_rust true 10 (mkV 5 3) (fun n => n =? 2) = Ok (Some (mkV 2 3)).
+Proof. vm_compute. reflexivity. Qed.
